@@ -54,3 +54,16 @@ pub proof fn lemma_udp_enc_all_push(ps: Seq<Seq<u8>>, d: Seq<u8>)
         assert(udp_enc(ps[0]) + (udp_enc_all(ps.drop_first()) + udp_enc(d)) =~= (udp_enc(ps[0]) + udp_enc_all(ps.drop_first())) + udp_enc(d));
     }
 }
+// the datagrams delivered when the first k records of ds are each sent to address a
+pub open spec fn delivered(ds: Seq<Seq<u8>>, k: int, a: int) -> Seq<(Seq<u8>, int)> { Seq::new(k as nat, |i: int| (ds[i], a)) }
+pub proof fn lemma_dec_all_step(s: Seq<u8>)
+    ensures udp_step(s) is None ==> udp_dec_all(s).0.len() == 0,
+            udp_step(s) is Some ==> udp_dec_all(s).0.len() > 0 && udp_dec_all(s).0[0] == udp_step(s)->Some_0.0
+                && udp_dec_all(s).0.drop_first() == udp_dec_all(udp_step(s)->Some_0.1).0
+{
+    if udp_step(s) is Some {
+        let p = udp_step(s)->Some_0.0; let r = udp_step(s)->Some_0.1; let d = udp_dec_all(r);
+        assert(udp_dec_all(s).0 == seq![p] + d.0);
+        assert((seq![p] + d.0).drop_first() =~= d.0);
+    }
+}
